@@ -53,7 +53,7 @@ def _build():
 
 def prebuild():
     _build()
-    vf.build_flavour("asan", ["csg_density"])
+    vf.build_flavour("asan", ["csg_density", "csg_boltzmann"])
 
 
 # ---------------------------------------------------------------------------
@@ -341,6 +341,653 @@ def _density(chk, wd):
         _judge_density(chk, c, res, d, gro, i)
 
 
+
+# ---------------------------------------------------------------------------
+# csg_boltzmann sessions (legacy Histogram behind persistent `hist set` /
+# `tab set` option sets)
+# ---------------------------------------------------------------------------
+
+_BS_DEFAULT = {"n": 101, "min": 0.0, "max": 1.0, "periodic": 0, "auto": 1,
+               "extend": 0, "scale": "no", "normalize": 1}
+_BS_ORDER = ["n", "min", "max", "periodic", "auto", "extend", "scale",
+             "normalize"]
+_BS_KB = 8.314462618e-3   # kJ/(mol K)
+# periodic mode with a fixed range narrower than the data: the model wraps
+# modulo the length of the range (n-1 bins, the two end bins are one point)
+_BS_WRAPKEY = "boltzmann-session/periodic-wrap-outside-range"
+
+_BS_TOP = """<topology>
+ <molecules>
+  <molecule name="TET" nmols="%d" nbeads="4">
+   <bead name="A" type="A" mass="1" q="0" />
+   <bead name="B" type="A" mass="1" q="0" />
+   <bead name="C" type="A" mass="1" q="0" />
+   <bead name="D" type="A" mass="1" q="0" />
+  </molecule>
+ </molecules>
+ <bonded>
+  <bond>
+   <name>bond</name>
+   <beads>
+    TET:A TET:B
+    TET:B TET:C
+    TET:C TET:D
+   </beads>
+  </bond>
+  <angle>
+   <name>angle</name>
+   <beads>
+    TET:A TET:B TET:C
+    TET:B TET:C TET:D
+   </beads>
+  </angle>
+  <dihedral>
+   <name>dih</name>
+   <beads>
+    TET:A TET:B TET:C TET:D
+   </beads>
+  </dihedral>
+ </bonded>
+</topology>
+"""
+
+
+def _v3(a, b, box):
+    """minimum-image b - a (orthorhombic)"""
+    d = [b[k] - a[k] for k in range(3)]
+    return [d[k] - box[k] * round(d[k] / box[k]) for k in range(3)]
+
+
+def _dot(a, b):
+    return a[0] * b[0] + a[1] * b[1] + a[2] * b[2]
+
+
+def _cross(a, b):
+    return [a[1] * b[2] - a[2] * b[1], a[2] * b[0] - a[0] * b[2],
+            a[0] * b[1] - a[1] * b[0]]
+
+
+def _bs_values(frames, box):
+    """bond lengths, angles and dihedrals of every TET molecule and frame,
+    computed from the printed digits of the trajectory"""
+    vals = {"bond": [], "angle": [], "dih": []}
+    for fr in frames:
+        for m in range(0, len(fr), 4):
+            a, b, c, d = fr[m:m + 4]
+            v1, v2, v3 = _v3(a, b, box), _v3(b, c, box), _v3(c, d, box)
+            for v in (v1, v2, v3):
+                vals["bond"].append(math.sqrt(_dot(v, v)))
+            for p, q in ((v1, v2), (v2, v3)):
+                # angle at the middle bead between the two bonds leaving it
+                mp = [-x for x in p]
+                cs = _dot(mp, q) / math.sqrt(_dot(p, p) * _dot(q, q))
+                vals["angle"].append(math.acos(max(-1.0, min(1.0, cs))))
+            n1, n2 = _cross(v1, v2), _cross(v2, v3)
+            cs = _dot(n1, n2) / math.sqrt(_dot(n1, n1) * _dot(n2, n2))
+            sg = -1.0 if _dot(v1, n2) < 0 else 1.0
+            vals["dih"].append(sg * math.acos(max(-1.0, min(1.0, cs))))
+    return vals
+
+
+def _bs_model(values, o):
+    """documented semantics of the legacy Histogram for option set o.
+    Returns dict(lo, hi, interval, pdf | None, accepted_lo, accepted_hi,
+    ambiguous, singular, wrapped_outside, empty)"""
+    n = o["n"]
+    dmin, dmax = min(values), max(values)
+    if o["auto"]:
+        lo, hi = dmin, dmax
+    else:
+        lo, hi = o["min"], o["max"]
+        if o["extend"]:
+            lo, hi = min(lo, dmin), max(hi, dmax)
+    iv = (hi - lo) / (n - 1)
+    r = {"lo": lo, "hi": hi, "interval": iv, "pdf": None, "ambiguous": 0,
+         "singular": False, "wrapped_outside": 0, "discarded": 0}
+    cnt = [0.0] * n
+    acc_lo = acc_hi = 0
+    for v in values:
+        ks = _cls((v - lo) / iv)
+        outs = set()
+        for k in ks:
+            if 0 <= k < n:
+                outs.add(k)
+            elif o["periodic"]:
+                # the two end points are the same point: period = n-1 bins
+                outs.add(k % (n - 1))
+            else:
+                outs.add(None)
+        if any(not (0 <= k < n) for k in ks) and o["periodic"]:
+            r["wrapped_outside"] += 1
+        if len(outs) > 1:
+            r["ambiguous"] += 1
+            acc_hi += 1
+            if None not in outs:
+                acc_lo += 1
+            continue
+        k = outs.pop()
+        if k is None:
+            r["discarded"] += 1
+            continue
+        cnt[k] += 1
+        acc_lo += 1
+        acc_hi += 1
+    r["accepted_lo"], r["accepted_hi"] = acc_lo, acc_hi
+    pdf = cnt[:]
+    sing = [False] * n
+    if o["scale"] == "bond":
+        for i in range(n):
+            x = lo + iv * i
+            if abs(x) < 1e-9:
+                sing[i] = True
+            else:
+                pdf[i] /= x * x
+    elif o["scale"] == "angle":
+        for i in range(n):
+            sa = math.sin(lo + iv * i)
+            if abs(sa) < 2e-5:
+                sing[i] = True
+            else:
+                pdf[i] /= sa
+    if o["periodic"]:
+        pdf[0] = pdf[0] + pdf[n - 1]
+        pdf[n - 1] = pdf[0]
+        sing[0] = sing[n - 1] = sing[0] or sing[n - 1]
+    r["singular"] = any(sing)
+    r["sing"] = sing
+    r["counts"] = cnt
+    tot = sum(pdf)
+    r["empty"] = acc_hi == 0
+    if o["normalize"]:
+        if tot == 0 or r["singular"]:
+            r["pdf"] = None if (tot == 0) else pdf   # norm unknown
+            r["norm_unknown"] = True
+        else:
+            pdf = [x / (iv * tot) for x in pdf]
+            r["pdf"] = pdf
+    else:
+        r["pdf"] = pdf
+    return r
+
+
+def _bs_fmt(x):
+    return "%.4g" % x
+
+
+def _bs_session(rng, sid):
+    """generate one session: trajectory + command list with the model state
+    (what the user set last) recorded at every command"""
+    nmol, nfr = rng.randint(6, 14), rng.randint(2, 4)
+    box = [10.0, 10.0, 10.0]
+    frames = []
+    lines = []
+    for fr in range(nfr):
+        pos = []
+        lines.append("frame t= %d.0" % fr)
+        lines.append("%5d" % (4 * nmol))
+        k = 1
+        for m in range(nmol):
+            p = [rng.uniform(2, 8) for _ in range(3)]
+            for nm in "ABCD":
+                ln = "%5d%-5s%5s%5d%8.3f%8.3f%8.3f" % (m + 1, "TET", nm, k,
+                                                      p[0], p[1], p[2])
+                lines.append(ln)
+                pos.append([float(ln[20:28]), float(ln[28:36]),
+                            float(ln[36:44])])
+                k += 1
+                stepv = [rng.gauss(0, 0.13) for _ in range(3)]
+                while math.sqrt(_dot(stepv, stepv)) < 0.06:
+                    stepv = [rng.gauss(0, 0.13) for _ in range(3)]
+                p = [p[i] + stepv[i] for i in range(3)]
+        lines.append("%10.5f%10.5f%10.5f" % tuple(box))
+        frames.append(pos)
+    gro = "\n".join(lines) + "\n"
+    try:
+        vals = _bs_values(frames, box)
+    except ZeroDivisionError:      # collinear beads after rounding: new case
+        return _bs_session(rng, sid)
+    st = {"hist": dict(_BS_DEFAULT), "tab": dict(_BS_DEFAULT)}
+    extra = {"smooth_pdf": 0, "smooth_pot": 0, "T": 300.0}
+    cmds = []     # (text, kind, info)
+    nout = [0]
+    toggles = {}
+
+    def setopt(which, opt, val):
+        cur = st[which][opt]
+        red = (val == cur) if opt == "scale" else (float(val) == float(cur))
+        txt = "%s set %s %s" % (which, opt, val)
+        if opt == "scale":
+            st[which][opt] = val
+        elif opt in ("min", "max"):
+            st[which][opt] = float(val)
+        else:
+            st[which][opt] = int(val)
+        toggles["%s_%s" % (opt, "redundant" if red else "changed")] = \
+            toggles.get("%s_%s" % (opt, "redundant" if red else "changed"),
+                        0) + 1
+        cmds.append((txt, "set", (which, opt)))
+        for w in ("hist", "tab"):
+            cmds.append(("%s set" % w, "list",
+                         (w, dict(st[w]), dict(extra), (which, opt))))
+
+    def rng_range(grp, mode):
+        d = vals[grp]
+        lo, hi = min(d), max(d)
+        L = hi - lo
+        if mode == 0:      # cut both sides
+            a, b = lo + L * rng.uniform(0.1, 0.4), hi - L * rng.uniform(0.1, 0.4)
+        elif mode == 1:    # cut below
+            a, b = lo + L * rng.uniform(0.1, 0.5), hi + L * rng.uniform(0.0, 0.3)
+        elif mode == 2:    # cut above
+            a, b = lo - L * rng.uniform(0.0, 0.3), hi - L * rng.uniform(0.1, 0.5)
+        else:              # wider than the data
+            a, b = lo - L * rng.uniform(0.01, 0.3), hi + L * rng.uniform(0.01, 0.3)
+        return _bs_fmt(a), _bs_fmt(b)
+
+    def output(which, grp):
+        o = dict(st[which])
+        d = vals[grp]
+        if o["n"] < 5:
+            return False
+        if not o["auto"]:
+            lo, hi = o["min"], o["max"]
+            if o["extend"]:
+                lo, hi = min(lo, min(d)), max(hi, max(d))
+            if not hi > lo + 1e-6:
+                return False
+        if which == "tab":
+            # the inversion needs a non-negative distribution
+            m = _bs_model(d, o)
+            if o["scale"] == "angle" and not (m["lo"] > 1e-3 and
+                                              m["hi"] < math.pi - 1e-3):
+                return False
+            if o["scale"] == "bond" and not m["lo"] > 1e-3:
+                return False
+        nout[0] += 1
+        fn = "%s%d.dat" % ("h" if which == "hist" else "t", nout[0])
+        cmds.append(("%s %s *:%s:*" % (which, fn, grp), "out",
+                     (which, fn, grp, o, dict(extra))))
+        return True
+
+    grp0 = rng.choice(["bond", "bond", "angle", "dih"])
+    # one `vals` per group: cross-check of the model's own geometry
+    for g in ("bond", "angle", "dih"):
+        cmds.append(("vals v_%s.dat *:%s:*" % (g, g), "vals", g))
+    motif = rng.random()
+    if motif < 0.45:
+        # auto 1 (a no-op on a fresh session) ... later auto 0 with a range
+        # that cuts the data; extend is never touched
+        w = rng.choice(["hist", "tab"])
+        setopt(w, "auto", "1")
+        if rng.random() < 0.5:
+            setopt(w, "n", str(rng.choice([11, 21, 30, 51])))
+        if rng.random() < 0.5:
+            output(w, grp0)
+        a, b = rng_range(grp0, rng.choice([0, 0, 1, 2]))
+        seq = [("min", a), ("max", b), ("auto", "0")]
+        rng.shuffle(seq)
+        for opt, v in seq:
+            setopt(w, opt, v)
+        if rng.random() < 0.5:
+            setopt(w, "normalize", "0")
+        output(w, grp0)
+    nsteps = rng.randint(8, 30)
+    for _ in range(nsteps):
+        u = rng.random()
+        w = rng.choice(["hist", "hist", "tab"])
+        if u < 0.62:
+            opt = rng.choice(["n", "min", "max", "min", "max", "periodic",
+                              "auto", "auto", "extend", "extend",
+                              "normalize", "scale"])
+            cur = st[w][opt]
+            if rng.random() < 0.3:       # redundant: the value it already has
+                val = cur if opt == "scale" else (
+                    _bs_fmt(cur) if opt in ("min", "max") else str(cur))
+                if opt in ("min", "max") and float(val) != cur:
+                    val = repr(cur)
+            elif opt == "n":
+                val = str(rng.choice([5, 8, 11, 21, 30, 51, 101]))
+            elif opt in ("min", "max"):
+                g = rng.choice([grp0, grp0, "bond", "angle", "dih"])
+                a, b = rng_range(g, rng.randint(0, 3))
+                val = a if opt == "min" else b
+                if rng.random() < 0.5:   # set both ends consistently
+                    setopt(w, "min" if opt == "max" else "max",
+                           a if opt == "max" else b)
+            elif opt == "scale":
+                val = rng.choice(["no", "no", "bond", "angle"])
+            elif opt == "periodic":
+                val = str(rng.choice([0, 0, 1]))
+            else:
+                val = str(1 - cur) if rng.random() < 0.7 else str(cur)
+            setopt(w, opt, val)
+        elif u < 0.67:
+            # commands that must not touch the histogram options
+            which = rng.choice(["T", "smooth_pdf", "smooth_pot"])
+            if which == "T":
+                extra["T"] = float(rng.choice([300, 250, 400]))
+                cmds.append(("tab set T %g" % extra["T"], "set", ("tab", "T")))
+            else:
+                cmds.append(("tab set %s 0" % which, "set", ("tab", which)))
+            for w2 in ("hist", "tab"):
+                cmds.append(("%s set" % w2, "list",
+                             (w2, dict(st[w2]), dict(extra), ("tab", which))))
+        else:
+            g = rng.choice([grp0, grp0, "bond", "angle", "dih"])
+            if st[w]["periodic"] and rng.random() < 0.6:
+                g = "dih"
+            if not output(w, g):
+                toggles["output_skipped_invalid_state"] = toggles.get(
+                    "output_skipped_invalid_state", 0) + 1
+    for w in ("hist", "tab"):
+        output(w, grp0)
+    cmds.append(("q", "quit", None))
+    return {"sid": sid, "nmol": nmol, "gro": gro, "vals": vals,
+            "cmds": cmds, "toggles": toggles}
+
+
+_BS_LIST_RE = None
+
+
+def _bs_parse_listings(out):
+    """option listings printed by `hist set` / `tab set` without arguments,
+    in order of appearance"""
+    lines = []
+    for ln in out.splitlines():
+        while ln.startswith("> "):
+            ln = ln[2:]
+        lines.append(ln.strip())
+    res = []
+    i = 0
+    while i < len(lines):
+        if lines[i].startswith("n: ") and i + 7 < len(lines) + 0 and all(
+                lines[i + k].startswith(_BS_ORDER[k] + ": ")
+                for k in range(8) if i + k < len(lines)) and i + 7 < len(lines):
+            d = {}
+            for k in range(8):
+                d[_BS_ORDER[k]] = lines[i + k].split(": ", 1)[1]
+            j = i + 8
+            is_tab = j + 2 < len(lines) and lines[j].startswith("smooth_pdf: ")
+            if is_tab:
+                d["smooth_pdf"] = lines[j].split(": ", 1)[1]
+                d["smooth_pot"] = lines[j + 1].split(": ", 1)[1]
+                d["T"] = lines[j + 2].split(": ", 1)[1]
+                j += 3
+            res.append(("tab" if is_tab else "hist", d))
+            i = j
+        else:
+            i += 1
+    return res
+
+
+def _bs_close(a, b, rel=2e-5, ab=1e-12):
+    return abs(a - b) <= ab + rel * max(abs(a), abs(b))
+
+
+def _bs_run(sess, wd, env, exe):
+    d = os.path.join(wd, "bs%d" % sess["sid"])
+    os.makedirs(d, exist_ok=True)
+    open(os.path.join(d, "topol.xml"), "w").write(_BS_TOP % sess["nmol"])
+    open(os.path.join(d, "traj.gro"), "w").write(sess["gro"])
+    stdin = "\n".join(c[0] for c in sess["cmds"]) + "\n"
+    res = vf.run_proc([exe, "--top", "topol.xml", "--trj", "traj.gro",
+                       "--no-map"], env=env, cwd=d, timeout=600,
+                      stdin=stdin.encode())
+    return res, d
+
+
+def _bs_read(path, ncol):
+    rows = []
+    for ln in open(path):
+        f = ln.split()
+        if len(f) >= ncol:
+            rows.append([float(x) for x in f[:ncol]])
+    return rows
+
+
+def _bs_judge(chk, sess, res, d):
+    cmdtxt = [c[0] for c in sess["cmds"]]
+    base = {"commands": cmdtxt, "topol.xml": _BS_TOP % sess["nmol"],
+            "traj.gro": sess["gro"],
+            "run": "csg_boltzmann --top topol.xml --trj traj.gro --no-map "
+                   "< commands"}
+    if not chk.proc_result(res, "csg_boltzmann session %d" % sess["sid"],
+                           base):
+        return
+    C = chk.counters
+
+    def cnt(k, n=1):
+        C[k] = C.get(k, 0) + n
+    cnt("boltzmann_sessions")
+    cnt("boltzmann_session_commands", len(cmdtxt))
+    for k, v in sess["toggles"].items():
+        cnt("boltzmann_session_option_" + k, v)
+    # ---- the model's own geometry against the program's `vals` output
+    for g in ("bond", "angle", "dih"):
+        try:
+            rows = [ln.split() for ln in open(os.path.join(d, "v_%s.dat" % g))]
+        except OSError:
+            chk.inconclusive.append("csg_boltzmann: vals file missing")
+            return
+        got = sorted(float(x) for r in rows for x in r[1:])
+        mine = sorted(sess["vals"][g])
+        if len(got) != len(mine) or any(abs(a - b) > 2e-6 * max(1, abs(a))
+                                        for a, b in zip(got, mine)):
+            chk.inconclusive.append(
+                "csg_boltzmann session %d: the model's %s values differ from "
+                "the program's vals output (oracle geometry problem)" %
+                (sess["sid"], g))
+            return
+    # ---- option listings: every option is what the user set last
+    listings = _bs_parse_listings(res.out)
+    want = [c for c in sess["cmds"] if c[1] == "list"]
+    if len(listings) != len(want):
+        chk.inconclusive.append(
+            "csg_boltzmann session %d: %d option listings found, %d expected"
+            % (sess["sid"], len(listings), len(want)))
+        return
+    nl = 0
+    for (kind, got), (txt, _, (w, o, extra, last)) in zip(listings, want):
+        nl += 1
+        if kind != w:
+            chk.inconclusive.append("csg_boltzmann: listing kind mismatch")
+            return
+        for opt in _BS_ORDER:
+            gv, ev = got[opt], o[opt]
+            ok = (gv == ev) if opt == "scale" else _bs_close(float(gv),
+                                                             float(ev))
+            if ok:
+                continue
+            idx = sess["cmds"].index((txt, "list", (w, o, extra, last)))
+            hist_cmds = cmdtxt[:idx + 1]
+            named = (last == (w, opt))
+            key = "boltzmann-session/option-not-set" if named else \
+                "boltzmann-session/option-changed-by-other-command"
+            wit = dict(base)
+            wit.update({"commands_up_to_listing": hist_cmds, "listing": w,
+                        "option": opt, "listed_value": gv,
+                        "value_set_last_by_user": ev,
+                        "last_set_command": "%s set %s" % last})
+            chk.violation(key, wit,
+                          "`%s set` lists %s=%s although the user's last "
+                          "setting is %s (last command: %s set %s)" %
+                          (w, opt, gv, ev, last[0], last[1]))
+        if kind == "tab":
+            if not _bs_close(float(got["T"]), extra["T"]) or \
+                    int(got["smooth_pdf"]) != 0 or int(got["smooth_pot"]) != 0:
+                chk.violation("boltzmann-session/option-changed-by-other-"
+                              "command", dict(base, listed=got),
+                              "tab set lists T/smooth values the user did "
+                              "not set")
+    chk.count("boltzmann_session_option_listing", nl, nontrivial=0)
+    # ---- histogram / potential outputs
+    nset = 0
+    for c in sess["cmds"]:
+        if c[1] == "set":
+            nset += 1
+        if c[1] != "out":
+            continue
+        which, fn, grp, o, extra = c[2]
+        vals = sess["vals"][grp]
+        m = _bs_model(vals, o)
+        fam = "boltzmann_session_%s_output" % which
+        idx = sess["cmds"].index(c)
+        wit = dict(base)
+        wit.update({"commands_up_to_output": cmdtxt[:idx + 1],
+                    "options_in_force": o, "selection": "*:%s:*" % grp,
+                    "data_min": min(vals), "data_max": max(vals),
+                    "data_count": len(vals),
+                    "expected_range": [m["lo"], m["hi"]],
+                    "expected_accepted": [m["accepted_lo"], m["accepted_hi"]]})
+        try:
+            rows = _bs_read(os.path.join(d, fn), 2 if which == "hist" else 3)
+            wit["output_file"] = open(os.path.join(d, fn)).read()[:6000]
+        except (OSError, ValueError) as e:
+            chk.violation("boltzmann-session/%s/no-output" % which, wit,
+                          "output file unreadable: %s" % e)
+            continue
+        cuts = m["discarded"] > 0
+        chk.count(fam, 1, nontrivial=1 if (cuts or nset >= 3) else 0)
+        if cuts:
+            cnt("boltzmann_session_outputs_with_discarded_values")
+        if not o["auto"] and not o["extend"] and cuts:
+            cnt("boltzmann_session_outputs_fixed_range_cutting_data")
+        pfx = "boltzmann-session/%s/" % which
+        n = o["n"]
+        scale = max(abs(m["lo"]), abs(m["hi"]), m["interval"])
+        tolx = 2e-5 * scale + 1e-12
+        if len(rows) != n or abs(rows[0][0] - m["lo"]) > tolx or \
+                abs(rows[-1][0] - m["hi"]) > tolx:
+            wit["got_range"] = [rows[0][0], rows[-1][0]] if rows else None
+            wit["got_rows"] = len(rows)
+            chk.violation(pfx + "range", wit,
+                          "range of the %s output is [%s, %s] with %d rows, "
+                          "the options in force (auto=%d extend=%d min=%s "
+                          "max=%s n=%d) denote [%.6g, %.6g]" %
+                          (which, rows[0][0] if rows else None,
+                           rows[-1][0] if rows else None, len(rows),
+                           o["auto"], o["extend"], o["min"], o["max"], n,
+                           m["lo"], m["hi"]))
+            # the weight clause can still be judged
+            if which == "hist" and not o["normalize"] and o["scale"] == "no" \
+                    and len(rows) >= 2:
+                ssum = sum(r[1] for r in rows) - (rows[0][1] if o["periodic"]
+                                                  else 0.0)
+                if not (m["accepted_lo"] - 1e-4 * len(vals) <= ssum <=
+                        m["accepted_hi"] + 1e-4 * len(vals)):
+                    wit["sum_of_bins"] = ssum
+                    chk.violation(pfx + "weight-not-conserved", wit,
+                                  "sum of bins %.6g, but %d..%d of the %d "
+                                  "values lie within half a step of the "
+                                  "range in force" %
+                                  (ssum, m["accepted_lo"], m["accepted_hi"],
+                                   len(vals)))
+            continue
+        for i, r in enumerate(rows):
+            if abs(r[0] - (m["lo"] + i * m["interval"])) > tolx:
+                chk.violation(pfx + "bin-centres", wit,
+                              "bin centre %d is %r, expected %r" %
+                              (i, r[0], m["lo"] + i * m["interval"]))
+                break
+        if o["periodic"] and m["wrapped_outside"]:
+            sub = "periodic-wrap-outside-range/"
+            cnt("boltzmann_session_outputs_periodic_with_values_outside")
+        else:
+            sub = ""
+        y = [r[1] for r in rows]
+        if any(math.isnan(v) or math.isinf(v) for v in y):
+            if m["empty"] or m["singular"]:
+                cnt("boltzmann_session_outputs_nan_on_empty_or_singular_"
+                    "not_judged")
+                continue
+        if which == "hist":
+            if not o["normalize"] and o["scale"] == "no":
+                ssum = sum(y) - (y[0] if o["periodic"] else 0.0)
+                tol = 1e-5 * len(vals) + 1e-9
+                if not (m["accepted_lo"] - tol <= ssum <=
+                        m["accepted_hi"] + tol):
+                    wit["sum_of_bins"] = ssum
+                    chk.violation(pfx + "weight-not-conserved", wit,
+                                  "sum of bins %.6g, but %d..%d of the %d "
+                                  "values are accepted by the range in force"
+                                  % (ssum, m["accepted_lo"], m["accepted_hi"],
+                                     len(vals)))
+                    continue
+            if o["normalize"] and not m["empty"]:
+                integ = sum(y) * m["interval"]
+                if not _bs_close(integ, 1.0, rel=3e-5 * n):
+                    wit["integral"] = integ
+                    chk.violation(pfx + "normalisation", wit,
+                                  "normalised histogram integrates to %r" %
+                                  integ)
+                    continue
+        if m["ambiguous"]:
+            cnt("boltzmann_session_outputs_with_edge_band_values_not_judged_"
+                "per_bin")
+            continue
+        if m["pdf"] is None or m["empty"]:
+            cnt("boltzmann_session_outputs_empty_not_judged_per_bin")
+            continue
+        e = m["pdf"]
+        sing = m["sing"]
+        if m.get("norm_unknown"):
+            # singular (don't-care) bins enter the norm: judge ratios only
+            ref = max((i for i in range(n) if not sing[i]),
+                      key=lambda i: abs(e[i]), default=None)
+            if ref is None or e[ref] == 0 or y[ref] == 0:
+                continue
+            fac = y[ref] / e[ref]
+            e = [v * fac for v in e]
+        emax = max(abs(v) for i, v in enumerate(e) if not sing[i]) \
+            if any(not s_ for s_ in sing) else 0.0
+        if which == "hist":
+            tol = 3e-5 * emax + 1e-12
+            for i in range(n):
+                if sing[i]:
+                    continue
+                if abs(y[i] - e[i]) > tol:
+                    wit.update({"bin": i, "got": y[i], "expected": e[i]})
+                    chk.violation(_BS_WRAPKEY if sub else pfx + "bin-content",
+                                  wit,
+                                  "bin %d holds %r, the model of the options "
+                                  "in force expects %r" % (i, y[i], e[i]))
+                    break
+        else:
+            if any(v < 0 for v in e) or m["singular"] or emax <= 0:
+                cnt("boltzmann_session_tab_outputs_not_judged_per_bin")
+                continue
+            kT = _BS_KB * extra["T"]
+            U = [(-kT * math.log(v / emax)) if v > 0 else None for v in e]
+            umax = max(u for u in U if u is not None)
+            U = [umax if u is None else u for u in U]
+            tol = 3e-4 * max(1.0, umax) + 1e-9
+            for i in range(n):
+                if abs(y[i] - U[i]) > tol:
+                    wit.update({"bin": i, "got": y[i], "expected": U[i]})
+                    chk.violation(_BS_WRAPKEY if sub else pfx + "potential",
+                                  wit,
+                                  "potential in bin %d is %r, Boltzmann "
+                                  "inversion of the model histogram gives %r"
+                                  % (i, y[i], U[i]))
+                    break
+    if len(chk.samples) < 6 and sess["sid"] % 11 == 0:
+        chk.sample({"csg_boltzmann_session": cmdtxt[:40],
+                    "listings_compared": nl})
+
+
+def _boltzmann_sessions(chk, wd):
+    vf.build_flavour("asan", ["csg_boltzmann"])
+    exe = os.path.join(vf.flavour_dir("asan"), "csg", "src", "csg_boltzmann",
+                       "csg_boltzmann")
+    env = vf.lib_env("asan")
+    rng = random.Random(7000003 * chk.seed + 29)
+    nsess = vf.tier_n(chk.tier, 64, 800)
+    sessions = [_bs_session(rng, i) for i in range(nsess)]
+    jobs = [lambda s=s: _bs_run(s, wd, env, exe) for s in sessions]
+    for s, (res, d) in zip(sessions, vf.run_parallel(jobs)):
+        _bs_judge(chk, s, res, d)
+
+
 # ---------------------------------------------------------------------------
 
 def run(chk):
@@ -374,6 +1021,7 @@ def run(chk):
             if not chk.ingest(res, w):
                 chk.sanitizer["reports"] += 0 if res.rc == 0 else 1
         _density(chk, wd)
+        _boltzmann_sessions(chk, wd)
     finally:
         shutil.rmtree(wd, ignore_errors=True)
     chk.assumptions = [
